@@ -22,8 +22,9 @@ RULE = (
     "cancelled at enter+timeout; equal => either), result.labels == the message's typed labels, and after a failed "
     "save the message is still acked and every later message processed. "
     "Non-trivial: an outcome other than plain return, or a backend failure followed by >=1 more message."
+    " Part 'sync_pool': sync task functions executed through a REAL ThreadPoolExecutor on a real event loop (1-4 messages, outcomes return / ValueError / KeyError / custom Exception / StopIteration (bare, with a value, from next() on an empty iterator) / StopAsyncIteration / KeyboardInterrupt / SystemExit / custom BaseException / RecursionError / TimeoutError / no-result); completion is awaited with barrier jobs posted to the single pool thread, never with a wall-clock limit; oracle: the execution completes, exactly one result with is_err and the raised class (a StopIteration may arrive as RuntimeError caused by it, as Python itself does for coroutines)."
 )
-ASSUMPTIONS = ["sync tasks run inline with zero virtual duration: 'timeout on a sync task' (documented as unreliable) is not asserted",
+ASSUMPTIONS = ["part sync_pool uses a real event loop and a real ThreadPoolExecutor; the main part runs on the virtual-time loop with inline sync functions", "sync tasks run inline with zero virtual duration: 'timeout on a sync task' (documented as unreliable) is not asserted",
                "virtual-time loop"]
 
 JSONV = st.recursive(
